@@ -47,6 +47,10 @@ type cqScenario struct {
 	Wic   cqWait    `json:"wic"`
 	Wsc   cqWatch   `json:"wsc"`
 	Burst bool      `json:"burst,omitempty"` // M2: producers and the WaitIdle caller run freely in parallel
+	// XK is set by the X-level trace validation only (fam_conc.x_conformance): the 1-based index of this
+	// scenario in the Scens constant of the X spec; it is logged (event "scen") so that
+	// ConcQueueXTrace.tla knows which Choose(k) the run corresponds to.
+	XK int `json:"xk,omitempty"`
 }
 
 var cqE1 = errors.New("E1")
@@ -195,6 +199,9 @@ func (d *cqDriver) Run(x *sched.Exec, raw json.RawMessage) json.RawMessage {
 		d.sc.Wsc.Script = []string{}
 	}
 	used, _ := json.Marshal(d.sc)
+	if x.LogSteps && !d.sc.Burst {
+		x.Log(trace.E{"ev": "scen", "k": d.sc.XK})
+	}
 	d.actorJob = map[string]int{}
 	d.clients = map[*sched.Actor]bool{}
 
@@ -373,7 +380,12 @@ func (d *cqDriver) Run(x *sched.Exec, raw json.RawMessage) json.RawMessage {
 		x.Labels = append(x.Labels, "burst")
 		synctest.Wait()
 	} else {
-		x.Loop(moves, observe, 150)
+		const maxSteps = 150
+		x.Loop(moves, observe, maxSteps)
+		if x.LogSteps {
+			// exhausted: the loop ended because no move was left (not because of the step bound)
+			x.Log(trace.E{"ev": "teardown", "exhausted": x.Steps < maxSteps})
+		}
 	}
 
 	// teardown: everything runs freely from here on; every job finishes as soon as it is invoked
